@@ -73,6 +73,27 @@ CLAIMS = {
    note="Exactness of the transitive closure for every signature is an algorithmic statement and is not decided.",
    technique="must-call / ordering rules on generators + decision tables + direction (pairing) rules on graph construction"),
 }
+
+# rules added in the second build session (after the independent second seeding round); appended to the claims above
+ADD = {
+ "C01": (" (R7/R8) the enum-value and NULL-slice clauses shared with C11/C16; (R9) the write parameter only in last position and the C destructor/method symbol slots, shared with C05/C06.", ""),
+ "C02": (" (R6) every diplomat::result accessor touches only its own arm in both the value and the reference overloads, the six comparison operators each compare the comparator's result with 0 under their own relation, the bundled span default-constructs empty (found the SIZE_MAX default, repaired by a fix: commit), the enum wrapper prints stored discriminants (shared with C11).", " + sibling-overload agreement"),
+ "C03": (" (R2c) a Vec/Box rebuilt from a buffer that a surviving owner still points at is never dropped on a non-cleanup path; (R5) also the std::string writer publishes a fresh buf after resize. Thorough tier: compile-fail witnesses (moves consume, owned views are not Clone, union private) and the same rules on the feature-less runtime build.", " + compile-fail witnesses with twins"),
+ "C04": (" (R5) both sides of every zip pairing use-site and def-site lifetimes are order- and length-preserving, nanobind suppresses keep_alive only for string slices; (R6) lifetime indices are formatted with the environment they index.", " + branded-index provenance"),
+ "C05": (" Error-context setters of ErrorStore are unconditional stores.", ""),
+ "C06": (" (R3) also the control statements enclosing each symbol slot in the templates are inventoried; (R6) nested plain modules are not analysed and abi_rename accumulators are per impl block (shared with C14/C13).", " + template guard inventory"),
+ "C07": (" Kotlin FFI wrapper classes and .toUxxx() conversions have the primitive's width; a parameter loop over a reordered or filtered copy of the parameters is reported.", ""),
+ "C08": (" (R4) list-view tags and the runtime's element sizes per tag (found the \"u16\" tag for u32 chars, repaired by a fix: commit); (R3) accumulators start neutral and are written only by the analysed statements; (R7) the reader used for each type kind read out of memory and the field offset applied exactly once.", ""),
+ "C09": (" (R5) both payloads of the C result union pass the zero-sized-struct filter, the JS self-import is removed under the emitted name, every extern fn template of the macro carries #[no_mangle] and #cfg; (R6) callback arguments: converting arms of param_conversion convert toward the FFI type (found the Option direction bug, repaired by a fix: commit) and every C++ argument wrapper the cpp backend prints for an accepted callback parameter is one fn_traits::replace handles (three open findings).", " + producer/consumer agreement between gate table, formatter and runtime template"),
+ "C10": (" (R7) is_ffi_safe, ffi_safe_version and the macro's return arm split Option payloads into nullable pointer vs record at the same set {&T, Box<T>}; is_ffi_safe table and option-record cache key shared with C05/C07.", " + sibling classification agreement"),
+ "C11": (" The JS generator reads an enum stored in memory with the signed reader.", ""),
+ "C12": (" (R8) who-may-write inventory: the functions that store the bookkeeping fields or write through buf are exactly the analysed ones. Thorough tier: compile-fail witnesses (fields private, writer cannot be forged) and the same rules on the feature-less runtime build.", " + compile-fail witnesses with twins"),
+ "C13": (" (R7) attribute state is not carried from one sibling item to the next: ast::Attrs accumulators and the auto flag are bound inside the loops that use them, and nothing but attribute evaluation happens for a method before its disable test.", " + loop-carried-state analysis"),
+ "C14": (" (R5) a scratch buffer that one item loop of a backend's run() resets per item is reset in its sibling loops too.", " + sibling-loop agreement"),
+ "C15": (" (R5) the JS generator supplies an allocator for every parameter type whose conversion arm unwraps one; lifetime indices are looked up in the environment they index (shared with C04).", " + producer/consumer agreement"),
+ "C16": (" diplomat_is_str is `true` on the null edge and the unmodified core validator otherwise (found the NULL+0 abort, repaired by a fix: commit); diplomat_alloc returns the allocator's pointer on every path and diplomat_free deallocates on every path. Thorough tier: compile-fail witnesses (views cannot be forged, outlive their borrow or be duplicated mutably) and the same rules on the feature-less runtime build.", " + compile-fail witnesses with twins"),
+ "C17": (" (R5) CLI and attribute values are parsed as TOML values; (R6) the scan for #[diplomat::config] is exhaustive (no short-circuiting adaptor, break or early return).", ""),
+}
 NOT_YET = "rule module not built yet in this round (see DESIGN.md section 4 for the planned static rules)"
 
 def main():
@@ -90,9 +111,9 @@ def main():
                 "evidence_file": "/verif/evidence/%s.json" % pid,
                 "replay_cmd_template": "./check %s quick  # replay file {path} lists the violated rule instances" % pid,
                 "engine": "dipfacts+rules",
-                "level_claimed": {"category": "other", "text": c["text"], "design_ref": "DESIGN.md section 4 " + pid},
+                "level_claimed": {"category": "other", "text": c["text"] + ADD.get(pid, ("", ""))[0], "design_ref": "DESIGN.md section 4 " + pid},
                 "level_note": c["note"],
-                "technique": "static analysis: " + c["technique"],
+                "technique": "static analysis: " + c["technique"] + ADD.get(pid, ("", ""))[1],
             })
         else:
             na.append({"property_id": pid, "reason": CLAIMS.get(pid, {}).get("na", NOT_YET)})
@@ -105,11 +126,13 @@ def main():
             {"name": "dipfacts", "path": "engines/dipfacts", "serves_properties": [c["property_id"] for c in checks],
              "kind_free_text": "rustc_private driver (RUSTC_WORKSPACE_WRAPPER under cargo +nightly check): typed/resolved HIR trees, MIR, ADT layouts as JSON facts"},
             {"name": "rules", "path": "engines/rules", "serves_properties": [c["property_id"] for c in checks],
-             "kind_free_text": "Python rule modules over the facts: decision tables, MIR path rules, provenance/flow, template linter"},
+             "kind_free_text": "Python rule modules over the facts: decision tables, MIR path rules, provenance/flow, loop-carried-state analysis, template linter"},
+            {"name": "witness", "path": "witness", "serves_properties": ["C03", "C12", "C16"],
+             "kind_free_text": "compile-fail doctests with compiling twins (cargo +nightly test --doc), run by the thorough tier"},
         ],
         "checks": checks,
         "not_applicable": na,
-        "notes": "All checks are static: nothing from /repo is executed. Facts are re-extracted whenever any source under /repo changes (hash-keyed).",
+        "notes": "All checks are static: nothing from /repo is executed. Facts are re-extracted whenever any source under /repo changes (hash-keyed). The thorough tier adds compile-fail witnesses (C03, C12, C16), a second pass over the feature-less runtime build, and a checker self-test that replays every kept seeded change of the property in a scratch copy of the current tree (informational; it never produces a VIOLATION line).",
     }
     json.dump(m, open(os.path.join(V, "MANIFEST.json"), "w"), indent=1)
     print("claimed:", [c["property_id"] for c in checks], "na:", len(na))
